@@ -96,4 +96,21 @@ CLAIMED['C08'] = (
     'DESIGN.md 3/C08',
 )
 
+CLAIMED['C13'] = (
+    'who-uses-which-indexer rule on the positional row selectors, sibling agreement of count/drop predicates, fold-construction pattern and CFG dominance (ast)',
+    'Narrow: decides that rows selected by integer position always go through .iloc on the frame whose length bounds the positions (bootstrap samples, extract_rows, '
+    'row split) - the only place where gaps in the row index left by remove() can select wrong rows; that remove counts and drops with one predicate and cleans up; that '
+    'add_column refuses an existing name and stores the per-row engine values; that folds are complement/slice pairs, grouped by membership, and that panel data are '
+    'always grouped by individual. Not decided: values after pandas operations, flatten_database, randomness.',
+    'DESIGN.md 3/C13',
+)
+CLAIMED['C14'] = (
+    'who-may-write rule (every write site must be dominated by a fresh get_new_file_name assignment) over all write-opens of the package, CFG must-pass for re-derivation on load, boolean-coding table agreement (ast)',
+    'Decides: all 10 write sites of the package either obtain their file name from a get_new_file_name call that dominates the write (never a remembered name) or are '
+    'one of four frozen exemptions; get_new_file_name loops until the name is free; every report iterates all rows of a parameter table that has one row per estimate; '
+    'statistics are recomputed on every construction of a results object and the pickle holds exactly the raw data; booleans are written with members of TRUE_STR/FALSE_STR, '
+    'parsed back iff the declared type is bool, every other value read is kept as it is, and the 27 defaults have consistent type/value. Not decided: equality of re-read values.',
+    'DESIGN.md 3/C14',
+)
+
 NOT_APPLICABLE = {f'C{i:02d}': WIP for i in range(1, 20)}
